@@ -154,16 +154,12 @@ Spec == Init /\ [][Next]_vars
 
 P == PriorOf(env)
 B == BlockOf(env, txs)
-Positions == ThmPositions(P, B, KeysOf(env), SetupTracked)
-Partition == ThmPartition(P, B, KeysOf(env), SetupTracked)
-Errors    == ThmErrors(P, B, KeysOf(env), SetupTracked)
-HashTag   == ThmHashTag(P, B, KeysOf(env), SetupTracked, { 1, 2, 3 })
-
-\* a range of one block is that block; chaining two copies of an accepted block's successor shape:
-\* the second block sees the first one's final sizes and its receipts as tracked nullifiers
-RangeOfOne ==
-    LET r == ScanRange(P, << B >>, KeysOf(env), SetupTracked)
-        s == ScanBlock(P, B, KeysOf(env), SetupTracked)
-    IN  r.ok = s.ok /\ r.res = << s >> /\ (r.ok <=> r.at = 0)
-
+R == ScanBlock(P, B, KeysOf(env), SetupTracked)
+Positions  == ThmPositionsR(R, P, B)
+Partition  == ThmPartitionR(R, B, KeysOf(env), SetupTracked)
+Errors     == ThmErrorsR(R, P, B)
+HashTag    == ThmHashTagR(R, P, B, KeysOf(env), SetupTracked, { 4, 5 })
+RangeOfOne == ThmRangeOfOneR(R, P, B, KeysOf(env), SetupTracked)
+\* all of the above with the result evaluated once
+AllTheorems == Theorems(P, B, KeysOf(env), SetupTracked, { 4, 5 })
 ================================================================================
